@@ -711,6 +711,33 @@ func genServerSkel(repo string) (string, error) {
 		}
 	}
 	fmt.Fprintf(&b, "Definition gen_registry_writers : list string :=\n  %s.\n\n", coqList(regWriters))
+
+	// Under which key is the registry accessed: the index expression of every
+	// s.endpoints[...] and the key argument of every delete(s.endpoints, ...),
+	// with the function it is in.
+	var keys []string
+	for _, fd := range p.allFuncs() {
+		if fd.Body == nil {
+			continue
+		}
+		name := skelFn{recvName(fd), fd.Name.Name}.String()
+		ast.Inspect(fd.Body, func(n ast.Node) bool {
+			switch x := n.(type) {
+			case *ast.IndexExpr:
+				if se, ok := x.X.(*ast.SelectorExpr); ok && se.Sel.Name == "endpoints" {
+					keys = append(keys, fmt.Sprintf("(%s, %s)", coqStr(name), coqStr(p.src(x.Index))))
+				}
+			case *ast.CallExpr:
+				if id, ok := x.Fun.(*ast.Ident); ok && id.Name == "delete" && len(x.Args) == 2 {
+					if se, ok := x.Args[0].(*ast.SelectorExpr); ok && se.Sel.Name == "endpoints" {
+						keys = append(keys, fmt.Sprintf("(%s, %s)", coqStr(name), coqStr(p.src(x.Args[1]))))
+					}
+				}
+			}
+			return true
+		})
+	}
+	fmt.Fprintf(&b, "Definition gen_registry_keys : list (string * string) :=\n  %s.\n\n", coqList(keys))
 	fmt.Fprintf(&b, "Definition gen_unmap_callers : list (string * string) :=\n  %s.\n", coqList(unmapCallers))
 	return b.String(), nil
 }
